@@ -56,3 +56,142 @@ func VerifC11_TypedefResolution() {
 	})
 	verifReach("end")
 }
+
+func init() {
+	verifHarnesses["VerifC11_TypeValidation"] = VerifC11_TypeValidation
+}
+
+// verifAnyType builds a type from {i32, a struct, a typedef, an UNDEFINED name}, bare
+// or as list / set / map element (one level); the second result says whether the
+// undefined name occurs in it.
+func verifAnyType() (*Type, bool) {
+	leaf := func() (*Type, bool) {
+		switch verifChoice(4) {
+		case 1:
+			return &Type{Name: "S_1"}, false
+		case 2:
+			return &Type{Name: "T_0"}, false
+		case 3:
+			return &Type{Name: "Nope"}, true
+		}
+		return &Type{Name: "i32"}, false
+	}
+	switch verifChoice(4) {
+	case 1:
+		e, bad := leaf()
+		return &Type{Name: "list", ValueType: e}, bad
+	case 2:
+		e, bad := leaf()
+		return &Type{Name: "set", ValueType: e}, bad
+	case 3:
+		k, bk := leaf()
+		e, be := leaf()
+		return &Type{Name: "map", KeyType: k, ValueType: e}, bk || be
+	}
+	return leaf()
+}
+
+// A program in which an undefined type name may occur at any of three sites (struct
+// fields in declaration order, a method argument / return type, a scope operation):
+// validate() reports an error iff it occurs somewhere; earlier valid uses of the same
+// container kind must not mask a later invalid one.
+func VerifC11_TypeValidation() {
+	f := &Frugal{Name: "p", ParsedIncludes: map[string]*Frugal{}, typedefIndex: map[string]*TypeDef{}, namespaceIndex: map[string]*Namespace{}}
+	td := &TypeDef{Name: "T_0", Type: &Type{Name: "i32"}}
+	f.Typedefs = []*TypeDef{td}
+	f.typedefIndex["T_0"] = td
+	f.Structs = []*Struct{{Name: "S_1"}}
+	bad := false
+	switch verifParam() {
+	case 0:
+		// a valid container first, then two arbitrary types
+		fields := []*Field{{ID: 1, Name: "seed", Modifier: Default, Type: &Type{Name: []string{"list", "set"}[verifChoice(2)], ValueType: &Type{Name: "S_1"}}}}
+		for i := 0; i < 2; i++ {
+			t, b := verifAnyType()
+			bad = bad || b
+			fields = append(fields, &Field{ID: i + 2, Name: []string{"a", "b"}[i], Modifier: Default, Type: t})
+		}
+		f.Structs = append(f.Structs, &Struct{Name: "Use", Fields: fields})
+	case 1:
+		a, b1 := &Type{Name: "set", ValueType: &Type{Name: "T_0"}}, false
+		r, b2 := verifAnyType()
+		x, b3 := verifAnyType()
+		bad = b1 || b2 || b3
+		f.Services = []*Service{{Name: "Svc", Methods: []*Method{
+			{Name: "first", ReturnType: &Type{Name: "list", ValueType: &Type{Name: "i32"}}, Arguments: []*Field{{ID: 1, Name: "a", Type: a}}},
+			{Name: "second", ReturnType: r, Arguments: []*Field{{ID: 1, Name: "a", Type: &Type{Name: "i32"}}}, Exceptions: nil},
+			{Name: "third", ReturnType: nil, Arguments: []*Field{{ID: 1, Name: "a", Type: &Type{Name: "map", KeyType: &Type{Name: "i32"}, ValueType: &Type{Name: "i32"}}}, {ID: 2, Name: "b", Type: x}}},
+		}}}
+	case 2:
+		o1, b1 := verifAnyType()
+		o2, b2 := verifAnyType()
+		bad = b1 || b2
+		f.Scopes = []*Scope{{Name: "Ev", Prefix: &ScopePrefix{String: ""}, Operations: []*Operation{{Name: "A", Type: o1}, {Name: "B", Type: o2}}}}
+	}
+	f.assignFrugal()
+	err := f.validate()
+	if bad {
+		verifReach("undefined-type")
+		verifAssert(err != nil, "a program that uses an undefined type is rejected")
+	} else {
+		verifReach("all-defined")
+		if verifParam() != 2 {
+			verifAssert(err == nil, "a program whose types are all defined is accepted")
+		}
+	}
+	verifReach("end")
+}
+
+func init() {
+	verifHarnesses["VerifC11_EnumNumbering"] = VerifC11_EnumNumbering
+}
+
+// The semantic action that numbers enum values (the Go code the grammar runs for an
+// `enum` declaration; the PEG matcher itself is outside): for any mix of explicit
+// (arbitrary non-negative) and implicit values in which the explicit numbers are
+// pairwise different, every value ends up with its own number - a duplicate makes the
+// generated Go a duplicate switch case, i.e. a valid program whose output does not compile.
+func VerifC11_EnumNumbering() {
+	k := 2 + verifParam()
+	var vals []interface{}
+	var evs []*EnumValue
+	explicit := make([]bool, k)
+	for i := 0; i < k; i++ {
+		var value interface{}
+		if verifNondetBool() {
+			n := int64(verifRange(0, 1<<40)) // any explicit number
+			value = []interface{}{nil, nil, n}
+			explicit[i] = true
+		}
+		ev, err := (&current{}).onEnumValue1(nil, Identifier([]string{"A", "B", "C", "D", "E"}[i]), value, nil)
+		verifAssert(err == nil, "enum value action")
+		evs = append(evs, ev.(*EnumValue))
+		vals = append(vals, []interface{}{ev})
+	}
+	for i := 0; i < k; i++ {
+		for j := 0; j < i; j++ {
+			if explicit[i] && explicit[j] {
+				verifAssume(evs[i].Value != evs[j].Value) // the program does not itself declare a number twice
+			}
+		}
+	}
+	res, err := (&current{}).onEnum1(Identifier("E"), vals, nil)
+	verifAssert(err == nil, "enum action")
+	en := res.(*Enum)
+	verifAssert(len(en.Values) == k, "every declared value is kept")
+	clash := false
+	for i := 0; i < k; i++ {
+		verifAssert(en.Values[i].Value >= 0, "every value has a number")
+		for j := 0; j < i; j++ {
+			if en.Values[i].Value == en.Values[j].Value {
+				// an explicit number may repeat an implicit one assigned before it only if the
+				// program asked for exactly that number; numbering must never CREATE a clash
+				if !explicit[i] {
+					clash = true
+				}
+			}
+		}
+	}
+	verifAssert(!clash, "an implicitly numbered value never collides with an earlier value")
+	verifReach("end")
+}
